@@ -1233,14 +1233,37 @@ class Evaluator:
         self.trace.append(r)
         for an in (n.get("args") or []) + ([n["recv"]] if isinstance(n.get("recv"), dict) else []):
             if isinstance(an, dict) and an.get("k") == "addr" and an.get("mut"):
-                t = an["e"]
-                while isinstance(t, dict) and t.get("k") in ("field", "index"):
-                    t = t.get("of") or t.get("a") or {}
-                nm = (t.get("res") or {}).get("local") if isinstance(t, dict) and t.get("k") == "path" else None
+                nm = _root_local(an["e"])
                 if nm in env:
                     env[nm] = Sym("mutated-by", (nm, r))
                     self.lossy.append("a local was passed by &mut to an opaque callee")
+        if isinstance(n.get("recv"), dict) and str(n.get("recv_ty") or "").startswith("&mut") and n["recv"].get("k") != "addr":
+            # auto-referenced receiver of a `&mut self` method the folder does not model (`buf[..k].copy_from_slice(..)`):
+            # whatever it knew about the local is gone
+            nm = _root_local(n["recv"])
+            if nm in env and not isinstance(env[nm], Sym):
+                env[nm] = Sym("mutated-by", (nm, r))
+                self.lossy.append("a local was the &mut receiver of an opaque method")
         return r
+
+
+def _root_local(t):
+    """the local a place expression is rooted in (through fields, indexing, derefs and re-borrows), or None"""
+    for _ in range(32):
+        if not isinstance(t, dict):
+            return None
+        k = t.get("k")
+        if k == "field" or k == "addr":
+            t = t.get("e")
+        elif k == "index":
+            t = t.get("a")
+        elif k == "un" and t.get("op") == "*":
+            t = t.get("a")
+        elif k == "path":
+            return (t.get("res") or {}).get("local")
+        else:
+            return None
+    return None
 
 
 def _walk_nodes(n):
